@@ -486,19 +486,32 @@ func setMapField(field reflect.Value, fieldType reflect.Type, isPtr bool, mapArr
 // setFieldFromString sets a struct field from a string default value.
 func setFieldFromString(field reflect.Value, fieldType reflect.Type, s string) error {
 	if fieldType.Kind() == reflect.Ptr {
-		fieldType = fieldType.Elem()
+		// A pointer field holds a pointer to the parsed default; calling the
+		// scalar setters on the pointer Value itself panics.
+		ptr := reflect.New(fieldType.Elem())
+		if err := setFieldFromString(ptr.Elem(), fieldType.Elem(), s); err != nil {
+			return err
+		}
+		field.Set(ptr)
+		return nil
 	}
 	switch fieldType.Kind() {
 	case reflect.String:
 		field.SetString(s)
-	case reflect.Int64, reflect.Int:
-		v, err := strconv.ParseInt(s, 10, 64)
+	case reflect.Int, reflect.Int8, reflect.Int16, reflect.Int32, reflect.Int64:
+		v, err := strconv.ParseInt(s, 10, fieldType.Bits())
 		if err != nil {
 			return fmt.Errorf("parsing int default %q: %w", s, err)
 		}
 		field.SetInt(v)
-	case reflect.Float64:
-		v, err := strconv.ParseFloat(s, 64)
+	case reflect.Uint, reflect.Uint8, reflect.Uint16, reflect.Uint32, reflect.Uint64:
+		v, err := strconv.ParseUint(s, 10, fieldType.Bits())
+		if err != nil {
+			return fmt.Errorf("parsing uint default %q: %w", s, err)
+		}
+		field.SetUint(v)
+	case reflect.Float32, reflect.Float64:
+		v, err := strconv.ParseFloat(s, fieldType.Bits())
 		if err != nil {
 			return fmt.Errorf("parsing float default %q: %w", s, err)
 		}
